@@ -8,7 +8,11 @@
 (*     never in Python,                                                                                             *)
 (*   * the relations themselves over wide integers (Wide.tla): an observed float x is round(x * 10^10).             *)
 (* Not modelled (and not decided, see the check's assumptions): the Thevenin impedance of an independently built    *)
-(* network of the elements' short-circuit models -- that needs complex-valued network reduction.                    *)
+(* network of the elements' short-circuit models -- that needs complex-valued network reduction.  What IS decided   *)
+(* about the network that calc_sc builds: it is a function of the ELECTRICAL network only -- the same template      *)
+(* whose bus table carries other labels (net.bus.index permuted / sparse, rows still in creation order) must give   *)
+(* the same row for every bus (dimension "label"); every element model that looks a bus quantity up by label        *)
+(* instead of by ppc row (or vice versa) breaks this.                                                               *)
 EXTENDS Wide, FiniteSets
 
 \* ---- template network (harness/checks/c18.py:build_net mirrors this table one to one) --------------------------
@@ -21,13 +25,27 @@ VnVolt == <<110000, 20000, 20000, 20000, 400>>
 Vn(b) == VnVolt[b + 1]                           \* rated voltage Un of bus b in volt
 NLine == 3
 NTrafo == 2
+\* ---- bus labellings: the pandapower index (label) of template bus b; the ROW order of net.bus is always 0..4 -------
+\*   default  label = row position (what create_bus does without index=)
+\*   rot      a permutation without fixed point: the label of the buses 0, 2, 3, 4 is the row position of a bus of
+\*            ANOTHER voltage level (gen bus 2 -> row of the 0.4 kV bus, sgen bus 3 -> row of the 110 kV bus)
+\*   rev      the reversed order (bus 2 keeps its label)
+\*   sparse   labels that are no row positions at all (what remains after buses were dropped / merged from other nets)
+LabelSet == {"default", "rot", "rev", "sparse"}
+LabelSeq(lab) == CASE lab = "default" -> <<0, 1, 2, 3, 4>>
+                   [] lab = "rot" -> <<2, 3, 4, 0, 1>>
+                   [] lab = "rev" -> <<4, 3, 2, 1, 0>>
+                   [] lab = "sparse" -> <<12, 7, 30, 9, 21>>
+LabelOf(lab, b) == LabelSeq(lab)[b + 1]
+AllLabels(lab) == {LabelOf(lab, b) : b \in Bus}
+BusOf(lab, l) == CHOOSE b \in Bus : LabelOf(lab, b) = l
 
 FaultSet == {"3ph", "2ph", "1ph"}
 CaseSet == {"max", "min"}
 IpModes == {"off", "C", "B", "radial"}           \* ip not requested / kappa method C / method B (topology "auto") / topology "radial"
 CfgType == [gen : BOOLEAN, sgen : BOOLEAN, ring : BOOLEAN, case : CaseSet, ipm : IpModes, branch : BOOLEAN, lvtol : {6, 10}]
-RunType == [fault : FaultSet, sn : {1, 10, 100}, inv : BOOLEAN, buses : (SUBSET Bus) \ {{}}]
-Dims == {"fault", "sn", "inv", "subset"}
+RunType == [fault : FaultSet, sn : {1, 10, 100}, inv : BOOLEAN, buses : (SUBSET Bus) \ {{}}, lab : LabelSet]
+Dims == {"fault", "sn", "inv", "subset", "label"}
 Kinds == Dims \cup {"base"}
 
 \* ---- decision functions transcribed from the code ---------------------------------------------------------------
@@ -53,22 +71,27 @@ Topology(ipm) == IF ipm = "radial" THEN "radial" ELSE "auto"
 KappaMethod(ipm) == IF ipm = "B" THEN "B" ELSE "C"
 CallOf(cfg, run) == [fault |-> run.fault, case |-> cfg.case, lv_tol_percent |-> cfg.lvtol, ip |-> cfg.ipm # "off",
                      topology |-> Topology(cfg.ipm), kappa_method |-> KappaMethod(cfg.ipm), branch_results |-> cfg.branch,
-                     inverse_y |-> run.inv, bus |-> run.buses, sn_mva |-> run.sn]
-\* results.py:112 (net.res_bus_sc = net.res_bus_sc.loc[bus, :]): one row per requested (in-service) bus
-ReportedRows(run) == run.buses
+                     inverse_y |-> run.inv, bus |-> {LabelOf(run.lab, b) : b \in run.buses}, sn_mva |-> run.sn,
+                     labels |-> LabelSeq(run.lab)]          \* labels: net.bus.index of the template, in row order
+\* results.py:112 (net.res_bus_sc = net.res_bus_sc.loc[bus, :]): one row per requested (in-service) bus, by LABEL
+ReportedRows(run) == {LabelOf(run.lab, b) : b \in run.buses}
 
 \* ---- runs, pairs of runs ----------------------------------------------------------------------------------------
 \* canonical value of each option dimension: fault 3ph (or 1ph: a family of its own, no 2ph partner), sn_mva 1,
-\* inverse_y True, all buses faulted.  A non-base state pairs a run with the run that has ONE dimension reset.
+\* inverse_y True, all buses faulted, default bus labels.  A non-base state pairs a run with the run that has ONE dimension reset.
 IsCanon(run, d) == CASE d = "fault" -> run.fault # "2ph"
                      [] d = "sn" -> run.sn = 1
                      [] d = "inv" -> run.inv
                      [] d = "subset" -> run.buses = Bus
+                     [] d = "label" -> run.lab = "default"
 NonCanon(run) == {d \in Dims : ~IsCanon(run, d)}
 Differ(r1, r2) == {d \in Dims : CASE d = "fault" -> r1.fault # r2.fault [] d = "sn" -> r1.sn # r2.sn
-                                  [] d = "inv" -> r1.inv # r2.inv [] d = "subset" -> r1.buses # r2.buses}
+                                  [] d = "inv" -> r1.inv # r2.inv [] d = "subset" -> r1.buses # r2.buses
+                                  [] d = "label" -> r1.lab # r2.lab}
 \* every run is the `run` of |NonCanon(run)| states (or of the base state); its single-run clauses are decided on ONE of them
+\* (a relabelled run is the run of exactly one state, the one of kind "label": the model varies the labels last)
 PrimaryKind(run) == IF NonCanon(run) = {} THEN "base"
+                    ELSE IF "label" \in NonCanon(run) THEN "label"
                     ELSE IF "fault" \in NonCanon(run) THEN "fault" ELSE IF "sn" \in NonCanon(run) THEN "sn"
                     ELSE IF "inv" \in NonCanon(run) THEN "inv" ELSE "subset"
 
@@ -82,6 +105,7 @@ ReqPair(cfg, run, ref, kind) ==
   CASE kind = "sn" -> {"C18_SnMvaInvariantBus"} \cup (IF cfg.branch THEN {"C18_SnMvaInvariantBranch"} ELSE {})
     [] kind = "inv" -> {"C18_InverseYInvariantBus"} \cup (IF cfg.branch THEN {"C18_InverseYInvariantBranch"} ELSE {})
     [] kind = "subset" -> {"C18_BusSubsetInvariant"}
+    [] kind = "label" -> {"C18_LabelInvariantBus"} \cup (IF cfg.branch THEN {"C18_LabelInvariantBranch"} ELSE {})
     [] kind = "fault" -> IF run.fault = "2ph" /\ ref.fault = "3ph" /\ NoCurrentSource(cfg) THEN {"C18_TwoPhaseRatio"} ELSE {}
     [] kind = "base" -> {}
 Required(cfg, run, ref, kind) == (IF kind = PrimaryKind(run) THEN ReqSingle(cfg, run) ELSE {}) \cup ReqPair(cfg, run, ref, kind)
